@@ -1,6 +1,7 @@
 package checks
 
 import (
+	"crypto/md5"
 	"fmt"
 	"math/rand"
 	"os"
@@ -212,3 +213,5 @@ func setSummary(set scen.Set) map[string]interface{} {
 	}
 	return map[string]interface{}{"slice": set.SliceSize, "blocks": set.Blocks, "content": set.Content, "sizes": sizes, "names": names, "slices": set.TotalSlices()}
 }
+
+func md5Of(b []byte) [16]byte { return md5.Sum(b) }
